@@ -15,6 +15,7 @@ EXPLANATION = (
     "exit (ok or error), so that the skip logic measures from the real cursor. W6: the writer's output file is opened with "
     "truncate(true) (it writes from offset 0). W7: index validation tool loads through validate_header (hash) - "
     "get_records_headers. Decides these structures, not which records survive which damage.")
+EXPLANATION += (" " + 'W10 is_eof is computed from the fields position and len alone (leaf analysis through helpers and arithmetic).')
 ASSUMPTIONS = []
 
 
@@ -384,6 +385,28 @@ def w9(ctx, rid):
         raise core.AnchorLost('preprocessor calls: %d' % n)
 
 
+def w10(ctx, rid):
+    """the tools reader reports end of input only when the cursor reached the file length: is_eof is computed from `position`
+    and `len` alone (no slack such as a minimal record size).  A tail shorter than a record that is swallowed as "end of file"
+    makes the tool succeed on a cut input and silently drop its last record instead of reporting / skipping it."""
+    prog = ctx.prog
+    n = 0
+    for f in prog.fns.values():
+        if not f.file.startswith('src/tools/') or not f.id.endswith('::is_eof'):
+            continue
+        n += 1
+        key = 'eof-is-position-vs-len|%s' % f.id
+        lv = core.scalar_leaves(prog, f, 0)
+        fields = {x[1] for x in lv if x[0] == 'field'}
+        extra = {x for x in lv if x[0] != 'field' and not (x[0] == 'const' and x[1] in (0, '0', 1, '1'))}
+        if fields == {'position', 'len'} and not extra:
+            ctx.ok(rid, key, f.where(), 'is_eof is a function of position and len only')
+        else:
+            ctx.bad(rid, key, f.where(), 'is_eof depends on %s besides position / len: a short tail is taken for the end of the file and the cut record is dropped without a report' % sorted((fields - {'position', 'len'}) | {str(x) for x in extra}))
+    if n < 1:
+        raise core.AnchorLost('tools reader is_eof: %d' % n)
+
+
 RULES = [
     Rule('C16.W1', 'the tools\' record writer stamps its own position into blob_offset (and recomputes the header CRC) before serialising a header', w1, 1),
     Rule('C16.W2', 'the recovered output is re-validated whenever validation was requested', w2, 1),
@@ -393,5 +416,6 @@ RULES = [
     Rule('C16.W6', 'the tools\' output blob is opened truncating', w6, 1),
     Rule('C16.W8', 'the skip after a bad header never trusts offsets stored in that header', w8, 1),
     Rule('C16.W9', 'migration passes the source version (as read) to both preprocessors', w9, 2),
+    Rule('C16.W10', 'the tools reader reports end of input only at position >= len (bare fields)', w10, 1),
     Rule('C16.W7', 'the index tools load through the validating loader and validate every reported header', w7, 2),
 ]
